@@ -4,6 +4,7 @@
 -/
 import FileD.Lemmas.Core
 import FileD.Lemmas.StreamProc
+import FileD.Lemmas.Sys
 namespace FileD.PropsC02
 open FileD.Core
 
@@ -22,9 +23,7 @@ theorem commits_prefix_added {s : State} (inv : CInv s) :
 
 /-- **proved part**: without a dead queue, for every interleaving and configuration, the commit
     notifications of any (source, stream) are strictly increasing in read order. -/
-theorem commits_in_read_order_partial (ops : List Op) (s : State) (hr : run (init false) ops = some s) :
-    InOrder s.commits := by
-  have inv := cinv_run cinv_init hr
+theorem in_order_of_cinv {s : State} (inv : CInv s) : InOrder s.commits := by
   obtain ⟨rest, hrest⟩ := commits_prefix_added inv
   intro pre a mid b post hc hst
   have hadd : s.main.added = pre ++ a :: (mid ++ b :: (post ++ rest)) := by rw [hrest, hc]; simp
@@ -46,6 +45,24 @@ theorem commits_in_read_order_partial (ops : List Op) (s : State) (hr : run (ini
     · rw [hadd'] at hnd
       have := (List.nodup_append.1 hnd).2.2 b (List.mem_append_left _ hp) b (List.mem_cons_self ..)
       exact absurd rfl this
+
+theorem commits_in_read_order_partial (ops : List Op) (s : State) (hr : run (init false) ops = some s) :
+    InOrder s.commits := in_order_of_cinv (cinv_run cinv_init hr)
+
+/-- **C02 order clause for the composed system** (Model/Sys.lean: no hand-over guard on `add`;
+    events reach the batcher when the stream layer's `out` fires): commit notifications of every
+    stream arrive in read order, for every interleaving of both layers. -/
+theorem sys_commits_in_read_order (ops : List Sys.Op) (s : Sys.State)
+    (hr : Sys.run (Sys.init false) ops = some s) : InOrder s.core.commits :=
+  in_order_of_cinv (Sys.sinv_run Sys.sinv_init hr).cinv
+
+/-- in the composed system M1's hand-over guard is never what blocks a step: whenever the stream
+    layer enables `out e.seq` for an accepted event, the guarded `add` is enabled too -/
+theorem sys_add_guard_redundant (ops : List Sys.Op) (s : Sys.State)
+    (hr : Sys.run (Sys.init false) ops = some s) (e : Ev) (ss : StreamProc.SS)
+    (hacc : e ∈ s.core.accepted) (hout : StreamProc.step? (s.streams e.st) (.out e.seq) = some ss) :
+    Core.step? s.core (.add false e) = some (Sys.addU s.core e) :=
+  Sys.add_guard_holds (Sys.sinv_run Sys.sinv_init hr) hacc hout
 
 /-- offsets: if the input hands out offsets that grow along each stream, commit notifications
     of a stream carry strictly increasing offsets -/
